@@ -96,9 +96,9 @@ structure VerifyCall where
   hash : String
   deriving DecidableEq, Repr
 
-/-- CURRENT behaviour: the hash comes from the certificate, `pss_padding` is never passed (default `False`) whatever the
-    certificate's signature algorithm is (open finding `C08-cert-validate-ignores-pss`) -/
-def certValidateCall (_alg : CertAlg) (hash : String) : VerifyCall := ⟨false, hash⟩
+/-- the hash comes from the certificate and `pss_padding` is "the certificate's signature algorithm is RSASSA-PSS"
+    (since commit 10a0142; before, `pss_padding` was never passed) -/
+def certValidateCall (alg : CertAlg) (hash : String) : VerifyCall := ⟨alg == .rsaPss, hash⟩
 
 /-- what the call should be for the signature to be checked "with the same parameters" -/
 def certValidateSpec (alg : CertAlg) (hash : String) : VerifyCall := ⟨alg == .rsaPss, hash⟩
@@ -127,12 +127,27 @@ def filterParams (varnames reserved : List String) (params : Params) : Params :=
 def plainFileVarnames : List String := "self" :: KeysTables.plainFileInitParams ++ [KeysTables.plainFileKwargsName]
 def proxyVarnames : List String := "self" :: KeysTables.proxyInitParams ++ [KeysTables.proxyKwargsName]
 
-/-- keyword arguments `PlainFileSP.sign` forwards to `private_key.sign` after `SignatureProvider.create(params)`:
-    whatever survives the filter and is not a named parameter (and is not `type`, which the filter always removes) -/
-def plainFileSignKwargs (params : Params) : Params :=
-  (filterParams plainFileVarnames KeysTables.spReservedKeys params).filter (fun p => !KeysTables.plainFileInitParams.contains p.1)
+/-- `utils.misc.value_to_bool`: a string is true iff it is one of "True", "true", "T", "1"; anything else by truthiness -/
+def valueToBool : PVal → Bool
+  | .str s => ["True", "true", "T", "1"].contains s
+  | .bool b => b
 
-/-- does a provider created through `get_signature_provider(sp_cfg=…, **kwargs)` sign with PSS?  (Python truthiness of the value) -/
+/-- `PlainFileSP.__init__`: `sign_kwargs` = the keywords that are not named parameters, plus — when the named parameter
+    `pss_padding` was given — `pss_padding = value_to_bool(…)` (appended last) -/
+def plainFileInitKwargs (bound : Params) : Params :=
+  bound.filter (fun p => !KeysTables.plainFileInitParams.contains p.1) ++
+    (if KeysTables.plainFileInitParams.contains "pss_padding" then
+       (match bound.lookup "pss_padding" with
+        | some v => [("pss_padding", .bool (valueToBool v))]
+        | none => [])
+     else [])
+
+/-- keyword arguments `PlainFileSP.sign` forwards to `private_key.sign` after `SignatureProvider.create(params)` -/
+def plainFileSignKwargs (params : Params) : Params :=
+  plainFileInitKwargs (filterParams plainFileVarnames KeysTables.spReservedKeys params)
+
+/-- does a provider created through `get_signature_provider(sp_cfg=…, **kwargs)` sign with PSS?
+    (`private_key.sign(pss_padding=…)` tests truthiness) -/
 def createdUsesPss (params : Params) : Bool :=
   match (plainFileSignKwargs params).lookup "pss_padding" with
   | some v => v.truthy
@@ -140,7 +155,7 @@ def createdUsesPss (params : Params) : Bool :=
 
 /-- the `local_file_key=` path builds `InteractivePlainFileSP(file_path, **kwargs)` directly: nothing is filtered -/
 def localFileUsesPss (kwargs : Params) : Bool :=
-  match kwargs.lookup "pss_padding" with
+  match (plainFileInitKwargs kwargs).lookup "pss_padding" with
   | some v => v.truthy
   | none => false
 
@@ -160,14 +175,15 @@ def cliRawPrivate (c : Curve) (d : Nat) : PyRes Bytes := toBytes c.cl d
 def cliRawPublic (c : Curve) (x y : Nat) : PyRes Bytes := rawPair c.cl x y
 
 /-- the last stage of `reconstruct_key` (after `PrivateKey.parse` and `PublicKey.parse` refused): curve from the length,
-    "everything under 49 bytes is a private key", public keys of exactly 64 / 96 bytes, else SPSDKError.
+    "everything under 49 bytes is a private key, and so are the 66 bytes of secp521r1", public keys of exactly 64 / 96 bytes,
+    else SPSDKError.
     `privOk c d` = `ec.derive_private_key(d, curve)` succeeds (1 ≤ d < n; else `ValueError`, not converted);
     `onCurve` as in `Ext` (`PublicKeyEcc.recreate` converts the `ValueError`). -/
 def reconstructRaw (privOk : Curve → Nat → Bool) (onCurve : Curve → Nat → Nat → Bool) (data : Bytes) : PyRes RawKey :=
   match (KeysTables.keyLenCurve data.length).bind Curve.ofName with
   | none => .error .spsdk
   | some c =>
-    if data.length ≤ 48 then
+    if data.length ≤ 48 ∨ data.length = 66 then
       (if privOk c (beDec data) then .ok (.priv c (beDec data)) else .error .other)
     else if data.length = 64 ∨ data.length = 96 then
       let h := data.length / 2
